@@ -335,8 +335,9 @@ def h_history(flag_seq, nm, order, nd=None, extended=None):
         def body(c):
             base = Scenario(c, flag_seq[0], nm, nd)
             scs = [base] + [Scenario(c, fl, nm, nd, tag='_%d' % i, k=base.k, grid=base.M) for i, fl in enumerate(flag_seq[1:], 1)]
-            for s_ in scs[1:]:
-                s_.logd = base.logd
+            if nd is not None:
+                for s_ in scs[1:]:
+                    s_.logd = base.logd
             srcs = [fx.source(s.flags, s.F, s.E, name='s%d' % i) for i, s in enumerate(scs)]
             mod = mk_models(base)
             fitter, _ = make_fitter(fx, mod, StubExtinction(base.k), (base.lo, base.hi), nf)
